@@ -188,7 +188,7 @@ class C09(Check):
         from hypothesis import given, settings, seed, HealthCheck, Phase, strategies as st
         _, s, n = task
         words = st.sampled_from(['a', 'b', 'ab', 'ba', 'aa', 'aB', 'A'])
-        gap = st.one_of(st.sampled_from([' ', '\n', '  ', ' \n ', '\n\n']),
+        gap = st.one_of(st.sampled_from([' ', '\n', '  ', ' \n ', '\n\n', '\x0c', ' \r', '\x0b', '\x85 ', '\u2028']),
                         st.integers(90, 400).map(lambda k: ' ' * k))
 
         @st.composite
@@ -215,7 +215,7 @@ class C09(Check):
             if any('backtrack' == x[0] for r in g.rules for e in peg.rule_exprs(r) for x in peg.walk(e)):
                 return
             if mode == 'text':
-                g = g.copy(ignores=[(None, ('rx', '[ \\n]+'))], ignore_pos=data.draw(st.integers(0, 5)))
+                g = g.copy(ignores=[(None, ('rx', '\\s+'))], ignore_pos=data.draw(st.integers(0, 5)))
             tl = data.draw(st.lists(texts(), min_size=12, max_size=12))
             if mode == 'bytes':
                 tl = [t.encode('utf-8') for t in tl]
